@@ -522,7 +522,7 @@ static void print_skeleton(const unsigned char *s, size_t n, int elide_dht)
   printf(" hdr=ffd8");
   while (i + 1 < n) {
     int m; size_t l;
-    if (s[i] != 0xFF) { printf("|"); while (i + 1 < n && !(s[i] == 0xFF && s[i + 1] != 0 && !(s[i + 1] >= 0xD0 && s[i + 1] <= 0xD7))) i++; continue; }
+    if (s[i] != 0xFF) break;
     m = s[i + 1];
     if (m == 0xD9) { printf("ffd9"); break; }
     if (i + 3 >= n) break;
@@ -530,6 +530,10 @@ static void print_skeleton(const unsigned char *s, size_t n, int elide_dht)
     if (m == 0xC4 && elide_dht) printf("ffc4%02x..", s[i + 4]);
     else for (k = i; k < i + 2 + l && k < n; k++) printf("%02x", s[k]);
     i += 2 + l;
+    if (m == 0xDA) {          /* entropy-coded segment: up to the next marker that is not RSTn / stuffing */
+      printf("|");
+      while (i + 1 < n && !(s[i] == 0xFF && s[i + 1] != 0x00 && s[i + 1] != 0xFF && !(s[i + 1] >= 0xD0 && s[i + 1] <= 0xD7))) i++;
+    }
   }
   printf(" passes=%d:", pass_total);
   for (k2 = 0; k2 < npass_seen; k2++) printf("%s%d", k2 ? "," : "", pass_seen[k2]);
